@@ -241,8 +241,8 @@ func sortedStrings(m map[string]bool) []string {
 
 type stopwatch struct{ t0 time.Time }
 
-func startWatch() stopwatch          { return stopwatch{time.Now()} }
-func (s stopwatch) secs() float64    { return time.Since(s.t0).Seconds() }
+func startWatch() stopwatch       { return stopwatch{time.Now()} }
+func (s stopwatch) secs() float64 { return time.Since(s.t0).Seconds() }
 func logf(format string, a ...interface{}) {
 	fmt.Fprintf(os.Stderr, format+"\n", a...)
 }
